@@ -391,6 +391,8 @@ type c19Link struct {
 	mu           sync.Mutex
 	cond         *sync.Cond
 	in           []byte        // sent by the peer, not yet read by the client
+	later        [][]byte      // further pieces of the peer's stream: before each one a Read fails with pauseErr
+	pauseErr     error         // (the bytes came later than the read deadline allows)
 	eof          bool          // the peer has closed
 	waiting      int           // Reads of the client's read side parked for data
 	direct       *bytes.Reader // while set, Read calls are served from here (a parked Read stays parked)
@@ -415,6 +417,11 @@ func (l *c19Link) Read(p []byte) (int, error) {
 		return l.direct.Read(p)
 	}
 	for len(l.in) == 0 && !l.eof {
+		if len(l.later) > 0 {
+			l.in, l.later = l.later[0], l.later[1:]
+			l.cond.Broadcast()
+			return 0, l.pauseErr
+		}
 		l.waiting++
 		l.cond.Broadcast()
 		l.cond.Wait()
@@ -529,7 +536,9 @@ func (l *c19Link) wait(d time.Duration, pred func() bool) bool {
 }
 
 // parked (under mu): the client's read side sits in Read and has consumed all that was sent
-func (l *c19Link) parked() bool { return l.waiting > 0 && len(l.in) == 0 && !l.eof }
+func (l *c19Link) parked() bool {
+	return l.waiting > 0 && len(l.in) == 0 && len(l.later) == 0 && !l.eof
+}
 
 const c19Patience = 10 * time.Second
 
@@ -1111,6 +1120,69 @@ func c19StateWriteFault(dst []byte, f []string) []byte {
 	return dst
 }
 
+// c19StatePaused: "rpz <cfg> <hist> <kind> <hex/hex/..>": the peer's stream (whole frames back to back)
+// reaches the client in these pieces, and between consecutive pieces a Read fails with a deadline
+// error (kind t: os.ErrDeadlineExceeded, n: wrapped in a net.OpError) - the bytes came later than
+// the read deadline allows.  Answer: the headers the read side reported (ReceivedMsg) from then on,
+// comma separated, "-" if none; "!o=<headers>" appended if the handlers were offered headers that
+// are not, in order, among the reported ones.
+func c19StatePaused(dst []byte, f []string) []byte {
+	s := c19Establish(f[1], f[2])
+	defer s.end()
+	l := s.l
+	if !l.settle() {
+		return append(dst, '-')
+	}
+	var pieces [][]byte
+	for _, h := range strings.Split(f[4], "/") {
+		b, _ := hex.DecodeString(h)
+		pieces = append(pieces, b)
+	}
+	perr, _ := c19WriteErr(f[3])
+	if op, ok := perr.(*net.OpError); ok {
+		op.Op = "read"
+	}
+	l.mu.Lock()
+	n0, m0 := len(l.logs), len(l.offered)
+	l.pauseErr = perr
+	l.in = append(l.in, pieces[0]...)
+	l.later = pieces[1:]
+	l.cond.Broadcast()
+	l.mu.Unlock()
+	// until the read side has taken everything and waits for more, or Connect has returned
+	l.wait(c19Patience, func() bool { return l.parked() || l.connDone })
+	l.mu.Lock()
+	defer l.mu.Unlock()
+	logs, offered := l.logs[n0:], l.offered[m0:]
+	if len(logs) == 0 {
+		dst = append(dst, '-')
+	}
+	for i, x := range logs {
+		if i > 0 {
+			dst = append(dst, ',')
+		}
+		dst = c19Hdr(dst, x.h, nil)
+	}
+	j := 0
+	for _, h := range offered {
+		for j < len(logs) && logs[j].h != h {
+			j++
+		}
+		if j == len(logs) {
+			dst = append(dst, "!o="...)
+			for i, o := range offered {
+				if i > 0 {
+					dst = append(dst, ',')
+				}
+				dst = c19Hdr(dst, o, nil)
+			}
+			break
+		}
+		j++
+	}
+	return dst
+}
+
 func c19Csv(s string) []uint64 {
 	var out []uint64
 	for _, f := range strings.Split(s, ",") {
@@ -1193,6 +1265,7 @@ func c19Decode(dst []byte, c *Client, conn *c19Conn, buf []byte) []byte {
 //	                                  Header{ver, typ in [tlo,thi], payloadLen, id}; the bytes written (hex)
 //	snd <cfg> <hist> <api> <plen> <types>   see c19StateSend
 //	wfl <cfg> <hist> <via> <k> <kind> <then> <v:t:l:i;..>   see c19StateWriteFault
+//	rpz <cfg> <hist> <kind> <hex/hex/..>   see c19StatePaused
 //	tables                            JSON dump of the message-type functions for all codes
 func TestVerifC19(t *testing.T) {
 	lines, w, done := verifIO(t)
@@ -1326,6 +1399,8 @@ func TestVerifC19(t *testing.T) {
 			out = c19StateSend(out, f)
 		case "wfl":
 			out = c19StateWriteFault(out, f)
+		case "rpz":
+			out = c19StatePaused(out, f)
 		case "tables":
 			out = append(out, c19Tables(t)...)
 		default:
